@@ -34,6 +34,7 @@ struct Cfg
   int type = -1;
   int D = 8, R = 2, T = 0, mb = 0;
   int span = 1, md = 0, ge = 0, vm = 1, nt = 0, tm = 0, sr = 0, smin = 0, smax = 0, arc = 0, tb = 0;
+  int hist = 0; // 1: the object is DERIVED from an already used object (see make_pdi), not freshly constructed
   std::string str() const
   {
     std::ostringstream o;
@@ -43,6 +44,7 @@ struct Cfg
     if (geom == "blk") o << ";tb=" << tb;
     o << ";span=" << span << ";md=" << md << ";ge=" << ge << ";vm=" << vm << ";nt=" << nt << ";tm=" << tm << ";arc=" << arc << ";sr=" << sr;
     if (sr) o << ";smin=" << smin << ";smax=" << smax;
+    if (hist) o << ";hist=" << hist;
     return o.str();
   }
   static Cfg parse(const std::string& s)
@@ -53,7 +55,7 @@ struct Cfg
     if (m.count("geom")) c.geom = m["geom"];
     c.type = gi("type", -1); c.D = gi("D", 8); c.R = gi("R", 2); c.T = gi("T", 0); c.mb = gi("mb", 0); c.tb = gi("tb", 0);
     c.span = gi("span", 1); c.md = gi("md", 0); c.ge = gi("ge", 0); c.vm = gi("vm", 1); c.nt = gi("nt", 0); c.tm = gi("tm", 0);
-    c.sr = gi("sr", 0); c.smin = gi("smin", 0); c.smax = gi("smax", 0); c.arc = gi("arc", 0);
+    c.sr = gi("sr", 0); c.smin = gi("smin", 0); c.smax = gi("smax", 0); c.arc = gi("arc", 0); c.hist = gi("hist", 0);
     return c;
   }
 };
@@ -124,9 +126,34 @@ inline shared_ptr<ProjDataInfo> make_pdi(const Cfg& c, const shared_ptr<Scanner>
   const int views = D / 2 / c.vm;
   const int nt = c.nt > 0 ? c.nt : (c.arc ? sc->get_default_num_arccorrected_bins() : sc->get_max_num_non_arccorrected_bins());
   shared_ptr<ProjDataInfo> p;
-  if (c.ge) p.reset(ProjDataInfo::ProjDataInfoGE(sc, c.md, views, nt, c.arc != 0, c.tm));
-  else p.reset(ProjDataInfo::construct_proj_data_info(sc, c.span, c.md, views, nt, c.arc != 0, c.tm).release());
+  if (c.hist == 0)
+    {
+      if (c.ge) p.reset(ProjDataInfo::ProjDataInfoGE(sc, c.md, views, nt, c.arc != 0, c.tm));
+      else p.reset(ProjDataInfo::construct_proj_data_info(sc, c.span, c.md, views, nt, c.arc != 0, c.tm).release());
+      if (c.sr) p->reduce_segment_range(c.smin, c.smax);
+      return p;
+    }
+  // hist=1 ("start from a non-initial state"): construct the UNMASHED, untrimmed object of the same axial compression, USE it (so that
+  // every lazily built table exists), then derive the target sampling with the setters that SSRB and the reconstruction code use
+  // (clone, set_num_views, set_num_tangential_poss, reduce_segment_range, set_tof_mash_factor), and use the derived object.
+  const int nt0 = c.arc ? sc->get_default_num_arccorrected_bins() : sc->get_max_num_non_arccorrected_bins();
+  const int tm0 = c.tm > 0 ? 1 : 0;
+  shared_ptr<ProjDataInfo> base;
+  if (c.ge) base.reset(ProjDataInfo::ProjDataInfoGE(sc, c.md, D / 2, nt0, c.arc != 0, tm0));
+  else base.reset(ProjDataInfo::construct_proj_data_info(sc, c.span, c.md, D / 2, nt0, c.arc != 0, tm0).release());
+  if (auto* cyl = dynamic_cast<ProjDataInfoCylindricalNoArcCorr*>(base.get()))
+    { // warm up: detector pair -> bin, bin -> detector pairs, ring pairs
+      Bin b; DetectionPositionPair<> dp(DetectionPosition<>(0, 0, 0), DetectionPosition<>(D / 2, 0, 0));
+      (void)cyl->get_bin_for_det_pos_pair(b, dp);
+      std::vector<DetectionPositionPair<>> v; cyl->get_all_det_pos_pairs_for_bin(v, Bin(0, 0, 0, 0), true);
+      int s = 0, a = 0; (void)cyl->get_segment_axial_pos_num_for_ring_pair(s, a, 0, 0);
+      (void)cyl->get_m(Bin(0, 0, 0, 0));
+    }
+  p.reset(base->clone());
+  if (views != p->get_num_views()) p->set_num_views(views);
+  if (nt != p->get_num_tangential_poss()) p->set_num_tangential_poss(nt);
   if (c.sr) p->reduce_segment_range(c.smin, c.smax);
+  if (c.tm > 1) p->set_tof_mash_factor(c.tm);
   return p;
 }
 
